@@ -3,9 +3,18 @@ package main
 
 import (
 	"os"
+	"runtime/pprof"
 
 	"verifharness/internal/c04"
 	"verifharness/internal/evid"
 )
 
-func main() { evid.Main(c04.Spec(), os.Args[2:]) } // os.Args[1] is the property id
+func main() {
+	if p := os.Getenv("C04_CPUPROFILE"); p != "" { // development aid: profile one child run
+		if f, err := os.Create(p); err == nil {
+			_ = pprof.StartCPUProfile(f)
+			defer pprof.StopCPUProfile()
+		}
+	}
+	evid.Main(c04.Spec(), os.Args[2:]) // os.Args[1] is the property id
+}
